@@ -263,11 +263,11 @@ PROPS["C04"] = {
     "verus": [{"unit": "typed_de", "rlimit": 300}, {"unit": "typed_num", "rlimit": 200}, {"unit": "typed_bytes", "rlimit": 200}, {"unit": "serde_access", "rlimit": 200}, {"unit": "strings", "rlimit": 200}, {"unit": "number", "rlimit": 400}],
     "kani": [],
     "trusted_base": [T1, T2, T4, T5, T6, T8, VSTD, PERR,
-                     "unit typed_de: the visitor is an arbitrary program — it enters as a trait with deterministic spec callbacks (on_bool, on_unit, on_none, on_str, on_u64 / on_i64 / on_f64) and, for visit_some / visit_seq / visit_map, as an opaque call that preserves the parser invariant (prophetic mut_ref_future for the access objects); declared substitutions: `self` -> `&mut self` (the trait impl is re-hosted on an inherent impl), `self.peek_invalid_type(peek, &visitor)` -> `self.peek_invalid_type_v(peek)` (the `&dyn Expected` only feeds the message), `let _ = DepthGuard::guard(self);` -> `self.depth_guard_tick()` (the guard is dropped at once: known finding F1a), `V: de::Visitor` -> the stand-in trait",
+                     "unit typed_de: the visitor is an arbitrary program — it enters as a trait with deterministic spec callbacks (on_bool, on_unit, on_none, on_str, on_u64 / on_i64 / on_f64) and, for visit_some / visit_seq / visit_map, as an opaque call that preserves the parser invariant (prophetic mut_ref_future for the access objects) and whose result and final reader position are deterministic functions of the visitor, the document and the start position (seq_out / map_out); declared substitutions: `self` -> `&mut self` (the trait impl is re-hosted on an inherent impl), `self.peek_invalid_type(peek, &visitor)` -> `self.peek_invalid_type_v(peek)` (the `&dyn Expected` only feeds the message), `let _ = DepthGuard::guard(self);` -> `self.depth_guard_tick()` (the guard is dropped at once: known finding F1a), `V: de::Visitor` -> the stand-in trait",
                      "the statement's oracle (serde_json) is not executed: the reference behaviour is written from the serde data model as serde_json implements it, per entry point",
                      "unit typed_num: sonic_number::parse_number enters through its contract proved in unit `number` (restated); `ret.map_err(|err| self.error(err.into()))` -> the equal `match` and `(!neg as usize)` -> an `if` expression (declared substitutions); the two arms of `deserialize_numeric_key!` are instantiated mechanically (`//@extract macro= arm=`, meta-variables by declared substitution; an arm that only forwards to the other arm is accepted as such only when its text is literally the forwarding invocation); inputs <= 512 MiB (the number unit's bound)",
-                     "NOT under contract: the ten one-line entry points generated by impl_deserialize_number (each is `self.deserialize_number(visitor)`; range conversion to the target width is serde's visitor, T4), the digit buffer and std `parse` of deserialize_i128 / u128 (what is read is under contract, the value is not), the content side of VariantAccess (unit / newtype / tuple / struct variant: one-line delegations), MapKey::deserialize_any / string-like keys (one parse_str call), derive output; `visitor.visit_enum(..)` is split by a declared substitution into visit_enum_tagged / visit_enum_unit (same callback, two access types)"],
-    "level_text": "Verus proof of per-type entry points of the serde Deserializer: deserialize_bool accepts exactly `true` / `false` and hands the visitor that boolean; deserialize_unit exactly `null`; deserialize_option maps a complete `null` to None and starts the inner deserializer at the value otherwise; deserialize_str accepts only a string literal and hands out its decoded text, borrowed exactly when it has no escape; deserialize_ignored_any accepts exactly one well-formed value; deserialize_seq / deserialize_map / deserialize_struct accept only `[` / `{`, start the visitor on a fresh access object just after the bracket and require the closing bracket after what it consumed; deserialize_enum accepts a bare variant name or the externally tagged form {Variant: value} (closing brace required; VariantAccess::variant_seed requires the colon after the variant name); deserialize_any dispatches on the first byte (literals, string borrowed iff no escape, number, containers) and rejects anything else; visit_number dispatches each number class to its callback with the same value; Parser::parse_number reads a number from its first byte (sign included), ends exactly at its end and never rejects a plain integer that fits u64 / i64, which reaches the visitor through deserialize_number with exactly its value; a numeric map key is a number that starts right after the opening quote (no whitespace: serde_json: `expected key to be a number in quotes`) followed at once by the closing quote, a bool key exactly `true` / `false` and the closing quote; enum / bytes keys step back exactly onto the opening quote; scan_integer128 / deserialize_i128 / deserialize_u128 read exactly an optional `-` (i128 only) and an integer literal without leading zero; deserialize_bytes accepts only a string literal or an array, ends at the closing quote and hands an escape-free literal over borrowed, byte for byte (its completeness against serde_json — raw control characters, unpaired surrogates — is the known finding F21); plus (shared with C02 / C09 / C07) the comma-colon access machine, the borrow-or-copy string decoder and the exact integer parser",
+                     "NOT under contract: the ten one-line entry points generated by impl_deserialize_number (each is `self.deserialize_number(visitor)`; range conversion to the target width is serde's visitor, T4), the digit buffer and std `parse` of deserialize_i128 / u128 (what is read is under contract, the value is not), unit_variant / newtype_variant_seed of VariantAccess (one-line delegations to an opaque Deserialize / seed), MapKey::deserialize_any / string-like keys (one parse_str call), derive output; `visitor.visit_enum(..)` is split by a declared substitution into visit_enum_tagged / visit_enum_unit (same callback, two access types)"],
+    "level_text": "Verus proof of per-type entry points of the serde Deserializer: deserialize_bool accepts exactly `true` / `false` and hands the visitor that boolean; deserialize_unit exactly `null`; deserialize_option maps a complete `null` to None and starts the inner deserializer at the value otherwise; deserialize_str accepts only a string literal and hands out its decoded text, borrowed exactly when it has no escape; deserialize_ignored_any accepts exactly one well-formed value; deserialize_seq / deserialize_map / deserialize_struct accept only `[` / `{`, start the visitor on a fresh access object just after the bracket and require the closing bracket after what it consumed — and are complete: at the bracket the outcome is exactly the (deterministic) visitor's, given the closing bracket, for a struct in BOTH encodings; tuple_variant / struct_variant of VariantAccess inherit exactly that; deserialize_enum accepts a bare variant name or the externally tagged form {Variant: value} (closing brace required; VariantAccess::variant_seed requires the colon after the variant name); deserialize_any dispatches on the first byte (literals, string borrowed iff no escape, number, containers) and rejects anything else; visit_number dispatches each number class to its callback with the same value; Parser::parse_number reads a number from its first byte (sign included), ends exactly at its end and never rejects a plain integer that fits u64 / i64, which reaches the visitor through deserialize_number with exactly its value; a numeric map key is a number that starts right after the opening quote (no whitespace: serde_json: `expected key to be a number in quotes`) followed at once by the closing quote, a bool key exactly `true` / `false` and the closing quote; enum / bytes keys step back exactly onto the opening quote; scan_integer128 / deserialize_i128 / deserialize_u128 read exactly an optional `-` (i128 only) and an integer literal without leading zero; deserialize_bytes accepts only a string literal or an array, ends at the closing quote and hands an escape-free literal over borrowed, byte for byte (its completeness against serde_json — raw control characters, unpaired surrogates — is the known finding F21); plus (shared with C02 / C09 / C07) the comma-colon access machine, the borrow-or-copy string decoder and the exact integer parser",
     "level_note": "a part of the statement: the listed entry points; agreement with serde_json for every Deserialize type is not decided (programs)",
     "technique": TECH_V,
     "explanation": "deserialize_bool: Ok ==> (text is `true` and res == visitor.on_bool(true)) or (`false` ...); deserialize_str: res == visitor.on_str(decoded(text), borrowed == no escape)",
